@@ -1103,7 +1103,7 @@ func TestVerifC06(t *testing.T) {
 			}
 			return nil
 		},
-		MinLabelFrac: map[string]float64{"segment created between two existing": 0.05, "DST day": 0.04, "reopen": 0.15, "interval update": 0.2},
+		MinLabelFrac: map[string]float64{"segment created between two existing": 0.05, "DST day": 0.04, "reopen": 0.1, "interval update": 0.2},
 	})
 }
 
@@ -1137,7 +1137,7 @@ func TestVerifC07(t *testing.T) {
 			}
 			return nil
 		},
-		MinLabelFrac: map[string]float64{"retention run": 0.5, "retention near an expiry edge": 0.05, "expired segment hidden before deletion": 0.03},
+		MinLabelFrac: map[string]float64{"retention run": 0.3, "retention near an expiry edge": 0.02, "expired segment hidden before deletion": 0.02},
 	})
 }
 
@@ -1168,6 +1168,6 @@ func TestVerifC14(t *testing.T) {
 			}
 			return nil
 		},
-		MinLabelFrac: map[string]float64{"delete while held": 0.03, "idle-close while held": 0.1, "failed acquisition (injected reopen failure)": 0.03},
+		MinLabelFrac: map[string]float64{"delete while held": 0.01, "idle-close while held": 0.05, "failed acquisition (injected reopen failure)": 0.01},
 	})
 }
